@@ -203,6 +203,15 @@ static void solve_separate(const Case& cs, Out& out)
     for (std::size_t i = 0; i < cs.n; ++i)
       x[b][i] = Zp(cs.rhs[b * cs.n + i]);
   solver.Factor(A, LUm.first, LUm.second);
+  {
+    // the solver object keeps nothing of a factorisation: factoring another matrix (into other storage) in between
+    // must not change what Solve does with the factors it is handed
+    SM A2 = A;
+    for (auto& e : A2.AsVector())
+      e = e + Zp(1);
+    auto LU2 = LU::template GetLUMatrices<SM, SM, SM>(A2, Zp(0));
+    solver.Factor(A2, LU2.first, LU2.second);
+  }
   solver.template Solve<DM>(x, LUm.first, LUm.second);
   out.sep("X");
   bool zero_pivot = false;
@@ -245,6 +254,13 @@ static void solve_in_place(const Case& cs, Out& out)
     for (std::size_t i = 0; i < cs.n; ++i)
       x[b][i] = Zp(cs.rhs[b * cs.n + i]);
   solver.Factor(ALU);
+  {
+    SM ALU2 = LU::template GetLUMatrix<SM>(A, Zp(0));
+    for (std::size_t b = 0; b < cs.nb; ++b)
+      for (auto& p : cs.pat)
+        ALU2[b][p.first][p.second] = A[b][p.first][p.second] + Zp(1);
+    solver.Factor(ALU2);
+  }
   solver.template Solve<DM>(x, ALU);
   out.sep("X");
   bool zero_pivot = false;
@@ -332,6 +348,61 @@ static void fam(Toks& tk, Out& out, bool solve)
   }
 }
 
+// family "linbig": alg csc L nb n density% seed — a large system generated from the seed (too large for a case line and
+// for the extracted model: implementation oracle only): pattern = diagonal + random off-diagonal elements, values
+// uniform in Z_p; Factor + Solve with the right-hand side b = A * x0; the oracle is A x == b, x == x0 unless a pivot vanished.
+static void fam_linbig(Toks& tk, Out& out)
+{
+  Case cs;
+  cs.alg = (int)tk.i();
+  long long csc = tk.i(), L = tk.i();
+  cs.nb = tk.i();
+  cs.n = tk.i();
+  long long dens = tk.i();
+  unsigned long long h = (unsigned long long)tk.i() * 0x9E3779B97F4A7C15ull + 12345;
+  auto next = [&]() { h = h * 6364136223846793005ull + 1442695040888963407ull; return (h >> 33); };
+  for (std::size_t r = 0; r < cs.n; ++r)
+    for (std::size_t c = 0; c < cs.n; ++c)
+      if (r == c || (long long)(next() % 100) < dens)
+        cs.pat.emplace_back(r, c);
+  for (std::size_t k = 0; k < cs.nb * cs.pat.size(); ++k)
+    cs.vals.push_back((long long)(next() % 2147483646ull) + 1);
+  std::vector<long long> x0(cs.nb * cs.n);
+  for (auto& v : x0)
+    v = (long long)(next() % 2147483647ull);
+  // b = A x0
+  cs.rhs.assign(cs.nb * cs.n, 0);
+  for (std::size_t b = 0; b < cs.nb; ++b)
+  {
+    std::vector<Zp> acc(cs.n, Zp(0));
+    for (std::size_t k = 0; k < cs.pat.size(); ++k)
+      acc[cs.pat[k].first] += Zp(cs.vals[b * cs.pat.size() + k]) * Zp(x0[b * cs.n + cs.pat[k].second]);
+    for (std::size_t i = 0; i < cs.n; ++i)
+      cs.rhs[b * cs.n + i] = acc[i].v;
+  }
+  Out inner;
+  if (csc)
+  {
+    VERIF_DISPATCH_L(
+        L,
+        (dispatch_alg<micm::SparseMatrixStandardOrderingCompressedSparseColumn, micm::Matrix<Zp>>(cs, inner, true)),
+        (dispatch_alg<micm::SparseMatrixVectorOrderingCompressedSparseColumn<LL>, micm::VectorMatrix<Zp, LL>>(cs, inner, true)));
+  }
+  else
+  {
+    VERIF_DISPATCH_L(
+        L,
+        (dispatch_alg<micm::SparseMatrixStandardOrderingCompressedSparseRow, micm::Matrix<Zp>>(cs, inner, true)),
+        (dispatch_alg<micm::SparseMatrixVectorOrderingCompressedSparseRow<LL>, micm::VectorMatrix<Zp, LL>>(cs, inner, true)));
+  }
+  out.tok("n=" + std::to_string(cs.n));
+  out.tok("nnz=" + std::to_string(cs.pat.size()));
+  if (inner.s.find("ORACLE_AX_NE_B") != std::string::npos)
+    out.tok("ORACLE_AX_NE_B");
+  if (inner.s.find("NOTE_ZERO_PIVOT") != std::string::npos)
+    out.tok("NOTE_ZERO_PIVOT");
+}
+
 // family "markowitz": n L bits[n*n] — the real DiagonalMarkowitzReorder on a 0/1 pattern; oracle: the
 // result is a permutation of 0..n-1 (whatever pivot heuristic the routine uses)
 template<class IM>
@@ -361,5 +432,5 @@ static void fam_markowitz(Toks& tk, Out& out)
 
 int main()
 {
-  return vio::run({ { "markowitz", fam_markowitz }, { "lu", [](Toks& t, Out& o) { fam(t, o, false); } }, { "linsolve", [](Toks& t, Out& o) { fam(t, o, true); } } });
+  return vio::run({ { "markowitz", fam_markowitz }, { "lu", [](Toks& t, Out& o) { fam(t, o, false); } }, { "linsolve", [](Toks& t, Out& o) { fam(t, o, true); } }, { "linbig", fam_linbig } });
 }
